@@ -156,6 +156,14 @@ class CoreTask:
                 rec["model"] = ob.inputs_from_model(ob.model) if hasattr(ob, "inputs_from_model") else None
             res["obligations"].append(rec)
         res["feas_calls"] = ctx.feas_calls
+        seen = {}
+        for unit_key, cls, origin in ctx.safety:
+            key = (unit_key, cls, origin)
+            seen[key] = seen.get(key, 0) + 1
+        for (unit_key, cls, origin), n in sorted(seen.items()):
+            res["obligations"].append({"name": "%s::%s/S/unreachable:%s@%s" % (self.name, unit_key, cls, origin), "kind": "S",
+                                       "status": "discharged", "solver": "z3", "time_s": 0.0,
+                                       "note": "%s from %s cannot occur (%d path(s))" % (cls, origin, n)})
 
     # -- iter_errors ---------------------------------------------------------------------------
     def _run_iter_errors(self, res):
